@@ -19,6 +19,12 @@ def run(ctx):
     for split in ([False, True] if ctx['tier'] == 'thorough' else [False]):
         gen_thrift.four_tables(rep, 'G02.a', split)
         gen_thrift.enums_and_newtypes(rep, 'G02.e', split)
+    # generated decoders call field_begin_len / read_bool / field_end_len in that order: the runtime typestate they rely on
+    import mirlib
+    import thrift_pairs
+    from vpcheck import ws_facts
+    prog = mirlib.load_program([ws_facts('ws')])
+    thrift_pairs.compact_typestate(rep, 'R02.t', prog, mirlib.CallGraph(prog))
     rep.floor('G02.a', 600)
     rep.floor('G02.e', 20)
     return rep
